@@ -33,7 +33,7 @@ fn addr_id(addr: usize) -> u32 {
     *m.entry(addr).or_insert(n)
 }
 
-fn reset_addr_ids() {
+pub(crate) fn reset_addr_ids() {
     ADDR_IDS.get_or_init(|| Mutex::new(HashMap::new())).lock().unwrap_or_else(|e| e.into_inner()).clear();
     STATE_OWNER.get_or_init(|| Mutex::new(HashMap::new())).lock().unwrap_or_else(|e| e.into_inner()).clear();
 }
@@ -44,6 +44,15 @@ static STATE_OWNER: OnceLock<Mutex<HashMap<usize, usize>>> = OnceLock::new();
 fn owner_of(state_addr: usize) -> u32 {
     let m = STATE_OWNER.get_or_init(|| Mutex::new(HashMap::new())).lock().unwrap_or_else(|e| e.into_inner());
     m.get(&state_addr).copied().map(addr_id).unwrap_or(0)
+}
+
+/// one log for both modes: the scheduler's ordered log inside tasks, the thread-local log in single-threaded mode
+fn log_ev(v: Value) {
+    if local::active() {
+        local::log(v);
+    } else {
+        sched::emit(v);
+    }
 }
 
 fn ord_name(o: Ordering) -> &'static str {
@@ -67,10 +76,10 @@ fn before_atomic(_addr: usize, op: &'static str) {
 
 fn after_atomic(e: &events_once::verif::AtomicEvent) {
     if e.op == "spin" {
-        sched::emit(json!({"ev":"spin"}));
+        log_ev(json!({"ev":"spin"}));
         return;
     }
-    sched::emit(json!({
+    log_ev(json!({
         "ev":"atomic", "op":e.op, "ord":ord_name(e.order),
         "ordf": e.order_fail.map(ord_name).unwrap_or("none"),
         "obs": e.observed.map(i64::from).unwrap_or(-1),
@@ -85,15 +94,17 @@ fn created(event: usize, state: usize) {
     STATE_OWNER.get_or_init(|| Mutex::new(HashMap::new())).lock().unwrap_or_else(|e| e.into_inner()).insert(state, event);
     let ev = addr_id(event);
     let st = addr_id(state);
-    sched::emit(json!({"ev":"created","obj":ev,"loc":st}));
+    log_ev(json!({"ev":"created","obj":ev,"loc":st}));
 }
 
 fn cell(event: usize, part: &'static str, access: &'static str) {
-    sched::emit(json!({"ev":"cell","part":part,"acc":access,"obj":addr_id(event)}));
+    // the state cell of the single-threaded event reports its own address: relate it to its event
+    let obj = if part == "state" { owner_of(event) } else { addr_id(event) };
+    log_ev(json!({"ev":"cell","part":part,"acc":access,"obj":obj}));
 }
 
 fn release(event: usize, storage: &'static str) {
-    sched::emit(json!({"ev":"release","storage":storage,"obj":addr_id(event)}));
+    log_ev(json!({"ev":"release","storage":storage,"obj":addr_id(event)}));
 }
 
 pub fn install_hooks() {
@@ -110,7 +121,7 @@ struct WData {
 fn w_clone(p: *const ()) -> RawWaker {
     // SAFETY: p was produced by Box::into_raw(Box<WData>) and is alive while any waker referring to it is
     let d = unsafe { &*(p as *const WData) };
-    sched::emit(json!({"ev":"wclone","w":d.id}));
+    log_ev(json!({"ev":"wclone","w":d.id}));
     local::on_callback("clone", d.id);
     let n = Box::new(WData { id: d.id, original: false });
     RawWaker::new(Box::into_raw(n) as *const (), &VTABLE)
@@ -118,19 +129,19 @@ fn w_clone(p: *const ()) -> RawWaker {
 fn w_wake(p: *const ()) {
     // SAFETY: see w_clone; wake consumes the waker
     let d = unsafe { Box::from_raw(p as *mut WData) };
-    sched::emit(json!({"ev":"wwake","w":d.id}));
+    log_ev(json!({"ev":"wwake","w":d.id}));
     local::on_callback("wake", d.id);
 }
 fn w_wake_by_ref(p: *const ()) {
     // SAFETY: see w_clone
     let d = unsafe { &*(p as *const WData) };
-    sched::emit(json!({"ev":"wwake_ref","w":d.id}));
+    log_ev(json!({"ev":"wwake_ref","w":d.id}));
 }
 fn w_drop(p: *const ()) {
     // SAFETY: see w_clone
     let d = unsafe { Box::from_raw(p as *mut WData) };
     if !d.original {
-        sched::emit(json!({"ev":"wdrop","w":d.id}));
+        log_ev(json!({"ev":"wdrop","w":d.id}));
         local::on_callback("drop", d.id);
     }
 }
@@ -147,13 +158,16 @@ pub struct Payload(pub u32);
 impl Drop for Payload {
     fn drop(&mut self) {
         if self.0 != 0 {
-            sched::emit(json!({"ev":"pdrop","v":self.0}));
+            log_ev(json!({"ev":"pdrop","v":self.0}));
             local::on_payload_drop();
         }
     }
 }
 impl Payload {
     /// The receiver got the value: taking it out is the hand-over (no destructor event).
+    pub fn take_value(self) -> u32 {
+        self.take()
+    }
     fn take(mut self) -> u32 {
         let v = self.0;
         self.0 = 0;
